@@ -63,7 +63,6 @@ enum Cmd {
     Read(&'static HalfLock<Val>),
     Release,
     Store(&'static HalfLock<Val>, u32),
-    Exit,
 }
 
 /// reply: (what, value seen, canary ok)
@@ -89,7 +88,6 @@ fn reader(i: usize, rx: Receiver<Cmd>, tx: Sender<Reply>) {
                 log(json!({"e": "release.ret", "r": i}));
                 let _ = tx.send(("release", id, ok));
             }
-            Cmd::Exit => break,
             Cmd::Store(..) => unreachable!(),
         }
     }
@@ -107,7 +105,6 @@ fn writer(i: usize, rx: Receiver<Cmd>, tx: Sender<Reply>) {
                 log(json!({"e": "store.ret", "w": i}));
                 let _ = tx.send(("store", v, true));
             }
-            Cmd::Exit => break,
             _ => unreachable!(),
         }
     }
